@@ -129,7 +129,7 @@ def no_callbacks(env, where):
 def protocol_case(draw):
     return {"sk": draw(gens.seckey_valid), "msg": draw(gens.msg32), "rho": draw(gens.bytes32_edge), "rho2": draw(gens.bytes32_edge),
             "ctx_host": draw(ctx_spec), "ctx_commit": draw(ctx_spec), "ctx_sign": draw(ctx_spec), "ctx_again": draw(ctx_spec),
-            "bad_sk": draw(st.sampled_from([None] * 9 + [0, N, N + 1, M256])), "sk2": draw(gens.seckey_valid)}
+            "bad_sk": draw(st.sampled_from([None] * 40 + [0, N, N + 1, M256])), "sk2": draw(gens.seckey_valid)}
 
 
 def run_protocol(env, case):
@@ -279,6 +279,13 @@ def hyp_examples(strategy, n, *seedparts):
 def sweep_enum(tier, shard, nshards):
     per = 4 if tier == "quick" else 190
     for c in hyp_examples(sweep_case(), per, "C15", "bit_sweep", shard, nshards):
+        yield c
+
+
+def sweep_enum_vsan(tier, shard, nshards):
+    # few, longer shards: a sanitizer-instrumented worker costs ~10-20 CPU-s to start
+    per = 8 if tier == "quick" else 250
+    for c in hyp_examples(sweep_case(), per, "C15", "bit_sweep_vsan", shard, nshards):
         yield c
 
 
@@ -462,10 +469,14 @@ def _run_subst(env, case, cx):
     return nt, classes
 
 
+# max_workers is kept small for everything that runs on the sanitizer build: each such worker process costs 10-20 CPU-seconds before its first case
+PROD = {"quick": ["prod"], "thorough": ["prod"]}
+VSAN = {"quick": ["vsan"], "thorough": ["vsan"]}
 TESTS = [
-    Test("protocol", protocol_case, run_protocol, quick=1500, thorough=50000,
+    Test("protocol", protocol_case, run_protocol, quick=1500, thorough=50000, max_workers=4,
          must_cover=["msg_ge_n", "mixed_contexts", "second_rho", "own_sha_used", "bad_seckey"] + ["ctx:" + k for k in CTX_KINDS]),
-    Test("bit_sweep", sweep_enum, run_sweep, kind="enum", must_cover=["swept", "msg_ge_n", "opening_flips_parsed:some", "ctx:own_sha"]),
-    Test("substitutions", subst_case, run_subst, quick=2500, thorough=80000,
+    Test("bit_sweep", sweep_enum, run_sweep, kind="enum", cfgs=PROD, must_cover=["swept", "msg_ge_n", "opening_flips_parsed:some", "ctx:own_sha"]),
+    Test("bit_sweep_vsan", sweep_enum_vsan, run_sweep, kind="enum", cfgs=VSAN, max_workers=2, must_cover=["swept"]),
+    Test("substitutions", subst_case, run_subst, quick=2500, thorough=80000, max_workers=3,
          must_cover=["commit:0", "commit:1", "host:0", "host:1", "opening:neg", "sig:high_s", "sig:zero_s", "datum:other", "enc:x_plus_p_fits"]),
 ]
